@@ -9,12 +9,16 @@ Case lines (integers in decimal, a string is a length-prefixed list of signed ch
   from_chars[_ovf] <ty> <base> <str>        class, ptr-first, value left in the out arg  (ref: std::from_chars)
   roundtrip <ty> <base> <value>             from_chars(to_chars(v))                      (ref: v)
   to_integer <ty> <skipws> <plus> <base> <str>    etl API: error, end, value             (model tie only)
-  strtol|strtoll|strtoul|strtoull[_kf] <base> <str>   value, end-str                     (ref: glibc)
-  stoi|stol|stoll|stoul|stoull[_kf] <base> <str>      value, *pos                        (ref: std::sto*, na when it throws)
+  strtol|strtoll|strtoul|strtoull[_n] <base> <str>   value, end-str                      (ref: glibc)
+  stoi|stol|stoll|stoul|stoull[_n] <base> <str>      value, *pos                         (ref: std::sto*, na when it throws)
+  strto_integer <ty> <base> <str>           detail::strto_integer<T>: error member, end, value  (ref: glibc + errno for 64-bit T; spec for all)
   atoi|atol|atoll <str>                     value                                        (ref: glibc strtol when representable)
-The suffixes _ovf/_kf mark inputs that the generator's own reference parser places inside a
-recorded known-finding region (known_findings.json); the harness and the driver treat them like
-the plain operation.  Everything else must agree with the reference exactly.
+The suffix _n = the call passes a null end pointer / pos (only the value is observed).  Bases
+outside {0, 2..36} (1, 37, -1, ...) are generated too: impl and model must agree ("no conversion"),
+reference and spec are na.  The suffix _ovf marks from_chars inputs that the generator's own
+reference parser places inside the recorded known-finding region (known_findings.json); the
+harness and the driver treat them like the plain operation.  Everything else must agree with the
+reference exactly.
 """
 ID = "C10"
 LEVEL = "proof"
@@ -107,35 +111,6 @@ def from_chars_region(ty, base, cs):
     v = -evald(base, ds) if neg else evald(base, ds)
     lo, hi = lim(ty)
     return "" if lo <= v <= hi else "_ovf"
-
-
-def strto_region(ty, base, cs, sto):
-    """'_kf' when the input lies in a recorded defect region of the strto*/sto* families"""
-    lo, hi = lim(ty)
-    sg = TYPES[ty][1]
-    if base == 0:
-        return "_kf"
-    i = 0
-    while i < len(cs) and (cs[i] == 32 or 9 <= cs[i] <= 13):
-        i += 1
-    neg = False
-    if i < len(cs) and cs[i] in (43, 45):
-        neg = cs[i] == 45
-        i += 1
-    rest = cs[i:]
-    has0x = len(rest) >= 3 and rest[0] == 48 and rest[1] in (120, 88) and digval(rest[2]) < 16
-    if base == 16 and has0x:
-        return "_kf"
-    ds = take_digits(base, rest)
-    if not ds:
-        return ""
-    m = evald(base, ds)
-    if not sg and neg:
-        return "_kf"
-    v = -m if neg else m
-    if not (lo <= v <= hi):
-        return "" if sto else "_kf"   # sto*: std throws -> nothing to compare
-    return ""
 
 
 def boundary_values(ty, bases, rng, nrand):
@@ -334,14 +309,39 @@ def gen(tier, rng):
                 out.append(f"from_chars{from_chars_region(ty, b, cs)} {ty} {b} {enc(cs)}")
     fam = [("strtol", "l"), ("strtoll", "ll"), ("strtoul", "ul"), ("strtoull", "ull"),
            ("stoi", "i"), ("stol", "l"), ("stoll", "ll"), ("stoul", "ul"), ("stoull", "ull")]
+    prefixed = ["0x", "0X", "0x0", "0xf", "0XF", "0x7fffffff", "0x80000000", "0xffffffff", "0x100000000",
+                "0x7fffffffffffffff", "0x8000000000000000", "0xffffffffffffffff", "0x10000000000000000",
+                "0xg", "0x 1", "0x-1", "0x+1", "0x0x1", "00x1", "0", "00", "07", "08", "017777777777", "020000000000",
+                "0777777777777777777777", "01000000000000000000000", "01777777777777777777777",
+                "02000000000000000000000", "0b1", "x1", "1x", "0x", "0xx", "0X0X"]
+
+    def strto_inputs(ty, b):
+        pb = b if 2 <= b <= 36 else rng.choice([8, 10, 16])
+        ins = [cs for cs in parse_inputs(ty, pb, rng, quick) if 0 not in cs]
+        for body in prefixed:                  # prefixes matter for base 0 and 16, must not for the others
+            for sg in ("", "-", "+"):
+                ins.append(codes(rng.choice(["", " ", "\t "]) + sg + body + rng.choice(["", "", "g", " ", "x"])))
+        return ins
+
+    bad_bases = [1, 37, -1, -16, 100, 255, 256, -2147483648, 2147483647]
     for name, ty in fam:
-        sto = name.startswith("sto")
         for b in ([0] + str_bases if not quick else [0, 2, 8, 10, 16, 36]):
-            pb = b if b else rng.choice([8, 10, 16])
-            for cs in parse_inputs(ty, pb, rng, quick):
-                if 0 in cs:
+            for cs in strto_inputs(ty, b):
+                out.append(f"{name} {b} {enc(cs)}")
+                if rng.random() < .1:
+                    out.append(f"{name}_n {b} {enc(cs)}")
+        for b in bad_bases:
+            for body in ("", "0", "12", "-12", " 0x1f", "zz"):
+                out.append(f"{name} {b} {enc(codes(body))}")
+    # detail::strto_integer<T> directly: the error member, and the instantiations without a wrapper
+    for ty in ("i", "u", "l", "ul", "ll", "ull"):
+        for b in ([0, 10, 16] if quick else [0] + str_bases):
+            for cs in strto_inputs(ty, b):
+                if quick and rng.random() < .5:
                     continue
-                out.append(f"{name}{strto_region(ty, b, cs, sto)} {b} {enc(cs)}")
+                out.append(f"strto_integer {ty} {b} {enc(cs)}")
+        for b in bad_bases:
+            out.append(f"strto_integer {ty} {b} {enc(codes('12'))}")
     for name, ty in (("atoi", "i"), ("atol", "l"), ("atoll", "ll")):
         for cs in parse_inputs(ty, 10, rng, quick):
             if 0 in cs:
